@@ -14,7 +14,8 @@ CONSTANTS Alpha,      \* atoms of the subject strings
           MaxLong,    \* max length for the cheap one-argument functions
           Offs,       \* integer offsets
           Needles,    \* search terms / delimiters / paddings
-          Fns
+          Fns,
+          Spell       \* {} | {"spell"} | {"spell", "spellT"}: integer parameters written as non-canonical numerals
 
 VARIABLE x
 
@@ -40,6 +41,8 @@ Long == StrsOver(Alpha, MaxLong)
 
 AS(s) == [k |-> "s", s |-> s, i |-> 0]
 AI(i) == [k |-> "i", s |-> <<>>, i |-> i]
+\* an integer parameter written as the numeral sp (the harness writes sp verbatim); i = how the reference reads it
+AN(sp) == [k |-> "n", s |-> sp, i |-> IntArg(sp)]
 Call(fn, args, exp, strict) == [ph |-> "call", fn |-> fn, args |-> args, exp |-> exp, strict |-> strict]
 Phase(ph, fn) == [ph |-> ph, fn |-> fn, args |-> <<>>, exp |-> RS(<<>>), strict |-> TRUE]
 
@@ -113,11 +116,78 @@ CallsOf(fn, s) ==
     [] fn = "#urldecode" ->
          {Call(fn, <<AS(UrlEncode(s, m).s)>>, RS(Trim(s)), TRUE) : m \in {"QUERY", "PATH"}}
 
+(* ---- integer parameters written as non-canonical numerals (Spell) ----                        *)
+(* One integer, several texts: leading zeros, blanks around it (documented: the number decides),  *)
+(* and -- outside the documentation, strict = FALSE -- an explicit "+", a fraction of zeros, an   *)
+(* exponent, parentheses.  Every call has the result of the call with the canonical numeral.      *)
+NoSpell == {}
+SpellQ == {"spell"}
+SpellT == {"spell", "spellT"}
+SpellWide == "spellT" \in Spell
+Sgn(v) == IF v < 0 THEN <<"-">> ELSE <<>>
+Mag(v) == IF v < 0 THEN -v ELSE v
+DocSpellings(v) ==
+  {Sgn(v) \o <<"0">> \o Dec(Mag(v)), Sgn(v) \o <<"0", "0">> \o Dec(Mag(v)),
+   <<SP>> \o Canon(v) \o <<SP>>, <<SP, SP>> \o Sgn(v) \o <<"0">> \o Dec(Mag(v))}
+  \cup (IF v = 0 THEN {<<"-", "0">>} ELSE {})
+  \cup (IF SpellWide THEN {Sgn(v) \o <<"0", "0", "0", "0">> \o Dec(Mag(v)), Canon(v) \o <<SP, SP>>} ELSE {})
+OtherSpellings(v) ==
+  (IF v >= 0 THEN {<<"+">> \o Dec(v), <<"+", "0">> \o Dec(v)} ELSE {})
+  \cup {Canon(v) \o <<".", "0">>, Canon(v) \o <<"e", "0">>}
+  \cup (IF SpellWide THEN {Canon(v) \o <<".">>, Sgn(v) \o <<"0">> \o Dec(Mag(v)) \o <<".", "0", "0">>, Canon(v) \o <<"-", "0">>} ELSE {})
+Spellings(v) == DocSpellings(v) \cup OtherSpellings(v)
+\* for plural the parameter is a NUMBER (an #expr): these spellings all denote v there too
+NumberSpellings(v) == DocSpellings(v) \cup (IF v >= 0 THEN {<<"+">> \o Dec(v)} ELSE {})
+                      \cup {Canon(v) \o <<".", "0">>, Canon(v) \o <<".">>, Sgn(v) \o <<"0">> \o Dec(Mag(v)) \o <<".", "0", "0">>}
+SpellInts == IF SpellWide THEN -3..5 ELSE -2..3
+SpellFew == {-1, 0, 2}
+SpellCounts == {0, 1, 3, 5, 10} \cup (IF SpellWide THEN {2, 4, 12, -1} ELSE {})
+SpellPlurals == {0, 1, 2, 10, 11, -1} \cup (IF SpellWide THEN {21, 100, 101, 3} ELSE {})
+SpellSubjects(fn) ==
+  IF Spell = {} THEN {}
+  ELSE CASE fn \in {"#sub", "#pos", "#explode"} -> {<<"a", "b", "b", "a", "b">>, <<"b", "SP", "a", "b">>}
+         [] fn = "#titleparts" -> {<<"A", "/", "b", "/", "b", "b", "/", "b">>} \cup (IF SpellWide THEN {<<"A", "b", "/", "b">>} ELSE {})
+         [] fn \in {"padleft", "padright"} -> {<<"a">>, <<"a", "b">>}
+         [] fn = "plural" -> {<<"a">>}
+         [] OTHER -> {}
+SpellCallsOf(fn, s) ==
+  CASE fn = "#sub" ->
+         {Call(fn, <<AS(s), AN(p), AI(b)>>, Sub(s, IntArg(p), b), IntArgPlain(p)) : p \in UNION {Spellings(a) : a \in SpellInts}, b \in SpellFew}
+         \cup {Call(fn, <<AS(s), AI(a), AN(q)>>, Sub(s, a, IntArg(q)), IntArgPlain(q)) : a \in SpellFew, q \in UNION {Spellings(b) : b \in SpellInts}}
+         \cup {Call(fn, <<AS(s), AN(p)>>, Sub(s, IntArg(p), 0), IntArgPlain(p)) : p \in UNION {Spellings(a) : a \in SpellInts}}
+         \cup {Call(fn, <<AS(s), AN(p), AN(q)>>, Sub(s, IntArg(p), IntArg(q)), TRUE) : p \in DocSpellings(1) \cup DocSpellings(-2), q \in DocSpellings(2) \cup DocSpellings(-1)}
+    [] fn = "#pos" ->
+         {Call(fn, <<AS(s), AS(n), AN(p)>>, Pos(s, n, IntArg(p)), IntArgPlain(p))
+            : n \in {<<"a">>, <<"b">>, <<"a", "b">>}, p \in UNION {Spellings(a) : a \in 0..3}}
+    [] fn = "#explode" ->
+         {Call(fn, <<AS(s), AS(d), AN(p)>>, Explode(s, d, IntArg(p), 0), IntArgPlain(p))
+            : d \in {<<"a">>, <<"b">>}, p \in UNION {Spellings(a) : a \in SpellInts}}
+         \cup {Call(fn, <<AS(s), AS(d), AN(p), AI(l)>>, Explode(s, d, IntArg(p), l), IntArgPlain(p))
+            : d \in {<<"b">>}, p \in UNION {Spellings(a) : a \in SpellFew}, l \in 1..2}
+         \cup {Call(fn, <<AS(s), AS(d), AI(a), AN(q)>>, Explode(s, d, a, IntArg(q)), IntArgPlain(q))
+            : d \in {<<"b">>}, a \in {0, 1, -1}, q \in UNION {Spellings(l) : l \in 1..3}}
+    [] fn = "#titleparts" ->
+         {Call(fn, <<AS(s), AN(p), AI(b)>>, TitleParts(s, IntArg(p), b), IntArgPlain(p)) : p \in UNION {Spellings(a) : a \in SpellInts}, b \in {0, 2, -1}}
+         \cup {Call(fn, <<AS(s), AI(a), AN(q)>>, TitleParts(s, a, IntArg(q)), IntArgPlain(q)) : a \in {0, 1, -1}, q \in UNION {Spellings(b) : b \in SpellInts}}
+         \cup {Call(fn, <<AS(s), AN(p)>>, TitleParts(s, IntArg(p), 0), IntArgPlain(p)) : p \in UNION {Spellings(a) : a \in SpellInts}}
+    [] fn = "padleft" ->
+         {Call(fn, <<AS(s), AN(p), AS(q)>>, PadLeft(s, IntArg(p), q), IntArgPlain(p)) : p \in UNION {Spellings(a) : a \in SpellCounts}, q \in {<<"b">>, <<"a", "b">>}}
+         \cup {Call(fn, <<AS(s), AN(p)>>, PadLeft(s, IntArg(p), <<"0">>), IntArgPlain(p)) : p \in UNION {Spellings(a) : a \in SpellCounts}}
+    [] fn = "padright" ->
+         {Call(fn, <<AS(s), AN(p), AS(q)>>, PadRight(s, IntArg(p), q), IntArgPlain(p)) : p \in UNION {Spellings(a) : a \in SpellCounts}, q \in {<<"b">>, <<"a", "b">>}}
+         \cup {Call(fn, <<AS(s), AN(p)>>, PadRight(s, IntArg(p), <<"0">>), IntArgPlain(p)) : p \in UNION {Spellings(a) : a \in SpellCounts}}
+    [] fn = "plural" ->
+         {Call(fn, <<AN(p), AS(s), AS(<<"b">>)>>, Plural(IntArg(p), s, <<"b">>), TRUE) : p \in UNION {NumberSpellings(v) : v \in SpellPlurals}}
+         \cup {Call(fn, <<AN(p), AS(s)>>, Plural(IntArg(p), s, <<>>), TRUE) : p \in UNION {NumberSpellings(v) : v \in {0, 1, 2}}}
+    [] OTHER -> {}
+
 Init == x = Phase("root", "")
 PickFunction == x.ph = "root" /\ \E f \in Fns : x' = Phase("fn", f)
 PickSubject == x.ph = "fn" /\ \E s \in Subjects(x.fn) : x' = [Phase("subject", x.fn) EXCEPT !.args = <<AS(s)>>]
 MakeCall == x.ph = "subject" /\ x' \in CallsOf(x.fn, x.args[1].s)
-Next == PickFunction \/ PickSubject \/ MakeCall
+PickSpellSubject == x.ph = "fn" /\ \E s \in SpellSubjects(x.fn) : x' = [Phase("nsubject", x.fn) EXCEPT !.args = <<AS(s)>>]
+MakeSpelledCall == x.ph = "nsubject" /\ x' \in SpellCallsOf(x.fn, x.args[1].s)
+Next == PickFunction \/ PickSubject \/ MakeCall \/ PickSpellSubject \/ MakeSpelledCall
 Spec == Init /\ [][Next]_x
 IsCall == x.ph = "call"
 
@@ -161,6 +231,36 @@ Laws ==
          /\ (A(2).i = 0 /\ A(3).i \in {0, 1}) => x.exp.s = Trim(A(1).s)
     [] x.fn = "#urldecode" -> UrlDecode(A(1).s) = x.exp
     [] OTHER -> TRUE
+
+\* M (numerals): building a numeral from an integer (Dec: division by 10) and reading a numeral
+\* (Positional) are inverse; every documented spelling is a plain numeral of its integer, every other
+\* spelling is not plain and is read as the same integer by the reference; for plural every spelling
+\* is read as its number
+SpellValues == SpellInts \cup SpellCounts \cup SpellPlurals
+NumeralsDenote ==
+  (x.ph = "root" /\ Spell # {}) =>
+    \A v \in SpellValues :
+      /\ IntArgPlain(Canon(v)) /\ IntArg(Canon(v)) = v
+      /\ \A p \in DocSpellings(v) : IntArgPlain(p) /\ IntArg(p) = v /\ p # Canon(v)
+      /\ \A p \in OtherSpellings(v) : ~IntArgPlain(p) /\ IntArg(p) = v
+      /\ \A p \in NumberSpellings(v) : IntArg(p) = v
+\* M (numerals): a call whose integer parameters are written in another way has the result of the call with the
+\* canonical numerals (stated on the reference definitions, for the spelled calls of this instance)
+RefOfInts(fn, a) ==
+  LET I(k) == IF k <= Len(a) THEN a[k].i ELSE 0
+      S(k) == IF k <= Len(a) THEN a[k].s ELSE <<>> IN
+  CASE fn = "#sub" -> Sub(S(1), I(2), I(3))
+    [] fn = "#pos" -> Pos(S(1), S(2), I(3))
+    [] fn = "#explode" -> Explode(S(1), S(2), I(3), I(4))
+    [] fn = "#titleparts" -> TitleParts(S(1), I(2), I(3))
+    [] fn = "padleft" -> PadLeft(S(1), I(2), IF Len(a) >= 3 THEN S(3) ELSE <<"0">>)
+    [] fn = "padright" -> PadRight(S(1), I(2), IF Len(a) >= 3 THEN S(3) ELSE <<"0">>)
+    [] fn = "plural" -> Plural(I(1), S(2), S(3))
+IsSpelledCall == IsCall /\ \E k \in 1..Len(x.args) : x.args[k].k = "n"
+SpellingDoesNotMatter ==
+  IsSpelledCall =>
+    /\ x.exp = RefOfInts(x.fn, [k \in 1..Len(x.args) |-> IF x.args[k].k = "n" THEN AI(IntArg(Canon(x.args[k].i))) ELSE x.args[k]])
+    /\ x.strict => \A k \in 1..Len(x.args) : x.args[k].k = "n" => (x.fn = "plural" \/ IntArgPlain(x.args[k].s))
 
 \* Demo: with the as-is deviations on, the transcription differs from the reference
 TitlepartsAsIsAgrees ==
